@@ -11,7 +11,7 @@ rsync -a --exclude .git /repo/ "$S/repo/"
 cp /verif/known_findings.json "$S/verif/"
 (cd "$S/repo" && patch -p1 -s < "$patch") || { echo "PATCH DOES NOT APPLY"; exit 2; }
 if [ "$build" = "--build" ]; then
-  (cd "$S/repo" && go build ./src/... ./cmd/... ) || { echo "MUTANT DOES NOT BUILD"; exit 2; }
+  (cd "$S/repo" && CGO_LDFLAGS="-L/usr/lib/llvm-14/lib -lLLVM-14" go build ./src/... ./cmd/... 2>&1 | tail -5) || { echo "MUTANT DOES NOT BUILD"; exit 2; }
 fi
 out="$(VERIF_REPO="$S/repo" VERIF_DIR="$S/verif" /verif/bin/ddpverif "$prop" 2>&1)"
 code=$?
